@@ -134,7 +134,7 @@ class C10(Engine):
         ops = []
         depth = 0
         for _ in range(nops):
-            kind = rng.choices(("set", "setstr", "del", "inplace", "hold", "held_edit", "enter", "exit", "launch", "launch_kv", "launch_alias", "detype", "read", "toggle_os"), (10, 3, 3, 5, 2, 3, 3, 3, 7, 2, 2, 4, 3, 0.7))[0]
+            kind = rng.choices(("set", "setstr", "del", "inplace", "hold", "held_edit", "enter", "exit", "launch", "launch_kv", "launch_alias", "detype", "read", "toggle_os", "launch_helper", "reassign_held"), (10, 3, 3, 5, 2, 3, 3, 3, 7, 2, 2, 4, 3, 0.7, 4, 1.5))[0]
             var = rng.choice(pool)
             if kind == "hold" and rng.random() < 0.6:
                 # the sequence the statement names: keep a reference, let the cache fill, edit through the reference, launch
@@ -142,12 +142,19 @@ class C10(Engine):
                 v = rng.choice(cands)
                 elem = rng.choice(PATHS[:-1]) if v[1] == "env_path" else rng.choice(HC)
                 edit = rng.choice(("append", "insert0")) if v[1] == "env_path" else "add"
-                ops += [["set", v[0], self.gen_value(rng, v[1])], ["hold", v[0], edit, elem], ["detype"], ["held_edit", v[0], edit, elem], ["launch"]]
+                ops += [["set", v[0], self.gen_value(rng, v[1])], ["hold", v[0], edit, elem], ["detype"], ["held_edit", v[0], edit, elem]]
+                # ... and, half of the time, store the edited object back (`p = $PATH; p.append(x); $PATH = p`)
+                if rng.random() < 0.5:
+                    ops.append(["reassign_held", v[0]])
+                ops.append([rng.choice(("launch", "launch_helper"))])
                 continue
             if kind in ("set", "setstr"):
                 ops.append([kind, var[0], self.gen_value(rng, var[1])])
             elif kind == "del":
                 ops.append(["del", var[0]])
+            elif kind == "reassign_held":
+                cands = [v for v in pool if v[1] in ("env_path", "hcset")]
+                ops.append([kind, rng.choice(cands)[0]])
             elif kind in ("inplace", "held_edit", "hold"):
                 cands = [v for v in pool if v[1] in ("env_path", "hcset")]
                 v = rng.choice(cands)
@@ -226,6 +233,8 @@ class C10(Engine):
         shadow = {}  # name -> typed value (python lists for env_path / hcset)
         scopes = []  # list of {name: value or "__MASK__"}
         held = {}
+        stored_back = set()
+        pending_held = set()  # edited through a held reference and nothing has touched the environment since
         touched = set()
         stack = contextlib.ExitStack()
         cache_filled = [False]
@@ -324,7 +333,7 @@ class C10(Engine):
                         fam=fam_of.get(name),
                         how=how,
                         stale=got != "__ABSENT__" and want != "__ABSENT__",
-                        held=any(o[0] == "held_edit" and o[1] == name for o in done),
+                        held=name in pending_held,
                     )
                     return
             for a, b in child.items():
@@ -380,6 +389,8 @@ class C10(Engine):
                 if V:
                     break
                 kind = op[0]
+                if kind in ("set", "setstr", "enter", "exit", "read", "toggle_os", "launch", "launch_kv", "launch_alias"):
+                    pending_held.clear()  # these steps always go through the environment object
                 if kind in ("set", "setstr"):
                     _, name, val = op
                     tv = typed(name, val)
@@ -410,6 +421,7 @@ class C10(Engine):
                     if any(name in sc for sc in scopes):
                         continue
                     if name in shadow:
+                        pending_held.clear()
                         del env[name]
                         del shadow[name]
                         touched.add(name)
@@ -422,6 +434,7 @@ class C10(Engine):
                         continue
                     touched.add(name)
                     if kind == "hold":
+                        pending_held.clear()
                         held[name] = env[name]
                         continue
                     if kind == "held_edit":
@@ -432,7 +445,9 @@ class C10(Engine):
                         if ref is not env._d.get(name):
                             continue
                         probes["held_reference_edit"] += 1
+                        pending_held.add(name)
                     else:
+                        pending_held.clear()
                         ref = env[name]
                         probes["inplace_edit"] += 1
                     cur = None
@@ -507,6 +522,26 @@ class C10(Engine):
                     child = launch("main")
                     if child is not None:
                         judge(child, "main")
+                elif kind == "reassign_held":
+                    name = op[1]
+                    ref = held.get(name)
+                    if ref is None or ref is not env._d.get(name) or any(name in sc for sc in scopes):
+                        continue
+                    pending_held.clear()
+                    env[name] = ref  # the documented way to make an edit through a held reference take effect
+                    probes["held_reference_reassigned"] = probes.get("held_reference_reassigned", 0) + 1
+                    stored_back.add(name)
+                elif kind == "launch_helper":
+                    # what xonsh's own helpers hand to the children they start (prompt VCS queries, bash/man
+                    # completers, source-foreign, which): the detyped mapping, taken without any other access
+                    probes["launch_helper"] = probes.get("launch_helper", 0) + 1
+                    try:
+                        child = dict(env.detype())
+                    except Exception as e:  # noqa: BLE001
+                        viol("no.exception", f"env.detype() raised {type(e).__name__}: {e}", exc=type(e).__name__)
+                        child = None
+                    if child is not None:
+                        judge(child, "helper")
                 elif kind == "launch_alias":
                     child = launch("alias")
                     if child is not None:
